@@ -12,10 +12,11 @@
        is a present static policy; template_to_links = exactly the inverse image) + API maps =
        projection of the core maps.  `_partial`: merge is not covered (not proved).
      c08_wf_step_core : the same for ast::PolicySet under the VISIBLE precondition core_ok (no slot-less
-       template added as template, no link to a slot-less template, no re-add of a template-linked
-       policy object, no merge); c08_wf_refuted_without_it : without it the faithful model loses the
-       invariant (witness add_static s; link s->n; remove_static s — replays on ast::PolicySet, and
-       through PolicySet::from_json_value on the public API, see notes/C08.md).
+       template added as template, no re-add of a template-linked policy object, no merge; since the
+       fix 3c064e2 `link` needs no precondition — c08_link_static_body_refused);
+       c08_wf_refuted_without_it : without it the faithful model loses the invariant (witness
+       add_template t; link t->x; unlink x; add_template x; add(unlinked object x): x is both a template
+       and a template-linked policy — core level only, the API refuses to `add` a linked policy).
      c08_link_subst_partial : for every request, store, template, binding and link id, evaluating the
        linked policy (slot environment of Eval.v) = evaluating the static policy obtained by writing the
        bound entity in place of each slot (subst_slots); unbound slots give ErrUnlinkedSlot on both sides.
@@ -34,7 +35,8 @@ Print Assumptions c08_fail_noop_core.
 
 Theorem c08_link_arity : forall s tmpl new env,
   (exists s', ps_link s tmpl new env = OOk s') <->
-  (exists t, alookup tmpl (ps_templates s) = Some t /\ check_binding t env = true /\ bound s new = false).
+  (exists t, alookup tmpl (ps_templates s) = Some t /\ (t_is_static t && amem tmpl (ps_links s)) = false /\
+             check_binding t env = true /\ bound s new = false).
 Proof. exact ps_link_ok_iff. Qed.
 Print Assumptions c08_link_arity.
 
@@ -75,6 +77,13 @@ Theorem c08_link_subst_partial : forall q es t env i,
   eval_policy q es (mkPolicy t (Some i) env) = eval_policy q es (static_of (subst_slots env t)).
 Proof. exact link_subst. Qed.
 Print Assumptions c08_link_subst_partial.
+
+(* 3c064e2: the body of a present static policy is not a link target (the former refutation witness) *)
+Theorem c08_link_static_body_refused : forall s t new env,
+  alookup (tid t) (ps_templates s) = Some t -> t_is_static t = true -> amem (tid t) (ps_links s) = true ->
+  ps_link s (tid t) new env = OErr ENoSuchTemplate.
+Proof. exact link_static_body_refused. Qed.
+Print Assumptions c08_link_static_body_refused.
 
 (* consequences of the invariant, in the property's words *)
 Theorem c08_no_shared_id : forall s i p t, WF s ->
